@@ -11,7 +11,8 @@ package main
 //                 are reconstructed from the Control messages and attributed to scan blocks;
 //                 observables: the order in which (block, index) pairs were forwarded
 // Oracle-only classes: "diff/..." (same pair diffed N times under GOMAXPROCS 1,2,8,16 with a
-// source pool that returns short reads and yields: patch and signature bytes identical),
+// source pool that returns short reads and yields: patch and signature bytes identical; after an
+// abandoned diff and beside other diffs of the same process: c15_seq.go),
 // "optimize/..." (rediff N times, fixed parameters, plus many repetitions of its analysis pass),
 // "bsdiff/..." (message stream identical, and replaying it on old gives new), "race/..." (the
 // pipelines in a `go build -race` child).
@@ -205,6 +206,10 @@ func runC15(c0 *Ctx) error {
 		return err
 	}
 	phase("diff")
+	if err := c15SeqCases(c); err != nil {
+		return err
+	}
+	phase("sequences")
 	if err := c15OptimizeCases(c); err != nil {
 		return err
 	}
@@ -751,35 +756,99 @@ type c15Match struct{ oldStart, newStart, addLen, copyEnd int }
 
 var c15ScanLabel = regexp.MustCompile(`\((\d+) blocks of `)
 
+// c15Lag makes the two callbacks a caller of bsdiff hands over take their time, which holds back
+// the goroutine that runs them while the scan workers go on: the progress callback runs on the
+// collector goroutine right before it drains a scan block (a slow UI), the message writer on the
+// goroutine that turns matches into control messages (a slow or compressing patch writer).  The
+// pauses are drawn from the case's PRNG (one stream per callback) and bounded by a budget.
+type c15Lag struct {
+	mu         sync.Mutex
+	prog, msg  *lib.Rng
+	progBudget time.Duration // what the progress callback may still sleep
+	msgBudget  time.Duration // what the message writer may still sleep
+	msgEvery   int           // one message in msgEvery pauses
+	pauses     int
+}
+
+func newC15Lag(r *lib.Rng) *c15Lag {
+	return &c15Lag{prog: r.Fork(), msg: r.Fork(), progBudget: 120 * time.Millisecond, msgBudget: 60 * time.Millisecond,
+		msgEvery: []int{40, 150, 600, 1 << 30}[r.Intn(4)]}
+}
+
+// pause sleeps 1..maxMs ms in num calls out of den while the budget lasts, and yields in one of
+// three of the others
+func (l *c15Lag) pause(budget *time.Duration, r *lib.Rng, num, den, maxMs int) {
+	l.mu.Lock()
+	var d time.Duration
+	if r.Chance(num, den) {
+		d = time.Duration(r.Range(1, maxMs)) * time.Millisecond
+		if d > *budget {
+			d = *budget
+		}
+		*budget -= d
+		if d > 0 {
+			l.pauses++
+		}
+	}
+	yield := r.Chance(1, 3)
+	l.mu.Unlock()
+	if d > 0 {
+		time.Sleep(d)
+	} else if yield {
+		runtime.Gosched()
+	}
+}
+
+func (l *c15Lag) onProgress() {
+	if l != nil {
+		l.pause(&l.progBudget, l.prog, 2, 3, 40)
+	}
+}
+
+func (l *c15Lag) onMessage() {
+	if l != nil {
+		l.pause(&l.msgBudget, l.msg, 1, l.msgEvery, 3)
+	}
+}
+
 // c15RunBsdiff runs DiffContext.Do and returns the message stream (marshalled), the matches
 // reconstructed from it, what the stream produces when replayed on old, and the number of scan
 // blocks the implementation announced
 // rng != nil: both inputs are handed over by readers that slice, yield and end as mode says
-func c15RunBsdiff(old, nw []byte, partitions, conc int, rng *lib.Rng, mode int) (stream []byte, ms []c15Match, replay []byte, blocks int, progress []float64, err error) {
+// lag != nil: the consumer's callbacks take their time (see c15Lag)
+func c15RunBsdiff(old, nw []byte, partitions, conc int, rng *lib.Rng, mode int, lag *c15Lag) (stream []byte, ms []c15Match, replay []byte, blocks int, progress []float64, err error) {
 	dc := &bsdiff.DiffContext{Partitions: partitions, SuffixSortConcurrency: conc}
 	var mu sync.Mutex
+	scanning := false
 	cons := &state.Consumer{
 		OnProgressLabel: func(l string) {
 			if m := c15ScanLabel.FindStringSubmatch(l); m != nil {
 				mu.Lock()
 				blocks, _ = strconv.Atoi(m[1])
 				progress = nil
+				scanning = true
 				mu.Unlock()
 			}
 		},
 		OnProgress: func(f float64) {
 			mu.Lock()
 			progress = append(progress, f)
+			sc := scanning
 			mu.Unlock()
+			if sc { // reported by the collector goroutine before it drains a scan block
+				lag.onProgress()
+			}
 		},
 	}
-	oldPos, newPos := 0, 0
+	oldPos, newPos, nmsg := 0, 0, 0
+	var inconsistent error
 	var buf bytes.Buffer
 	var oldR, newR io.Reader = bytes.NewReader(old), bytes.NewReader(nw)
 	if rng != nil {
 		oldR, newR = newChunky(oldR, int64(len(old)), rng.Fork(), mode), newChunky(newR, int64(len(nw)), rng.Fork(), mode)
 	}
 	err = dc.Do(oldR, newR, func(m proto.Message) error {
+		lag.onMessage()
 		ctl := m.(*bsdiff.Control)
 		b, err := proto.Marshal(ctl)
 		if err != nil {
@@ -787,11 +856,14 @@ func c15RunBsdiff(old, nw []byte, partitions, conc int, rng *lib.Rng, mode int) 
 		}
 		fmt.Fprintf(&buf, "%d:", len(b))
 		buf.Write(b)
-		if ctl.Eof {
+		nmsg++
+		if ctl.Eof || inconsistent != nil {
 			return nil
 		}
 		if oldPos < 0 || oldPos+len(ctl.Add) > len(old) {
-			return fmt.Errorf("control message adds %d bytes at old offset %d of %d", len(ctl.Add), oldPos, len(old))
+			// not handed back to bsdiff (which would stop there): the scan runs to its end
+			inconsistent = fmt.Errorf("the control messages do not apply to old: message %d adds %d bytes at old offset %d of %d", nmsg, len(ctl.Add), oldPos, len(old))
+			return nil
 		}
 		ms = append(ms, c15Match{oldPos, newPos, len(ctl.Add), newPos + len(ctl.Add) + len(ctl.Copy)})
 		for i, a := range ctl.Add {
@@ -802,6 +874,9 @@ func c15RunBsdiff(old, nw []byte, partitions, conc int, rng *lib.Rng, mode int) 
 		oldPos += len(ctl.Add) + int(ctl.Seek)
 		return nil
 	}, cons)
+	if err == nil {
+		err = inconsistent
+	}
 	mu.Lock()
 	defer mu.Unlock()
 	return buf.Bytes(), ms, replay, blocks, append([]float64(nil), progress...), err
@@ -825,15 +900,76 @@ func c15Geometry(newLen, partitions, oldLen int) (blockSize, numBlocks, numWorke
 	return
 }
 
-func c15GenBsdiffPair(r *lib.Rng, class string, thorough bool) (old, nw []byte) {
+// c15Shuffle assembles n bytes from pieces of old (base..base+100 bytes each) taken at random
+// offsets, with a few fresh bytes between two pieces here and there
+func c15Shuffle(r *lib.Rng, old []byte, n, base int) (nw []byte) {
+	for len(nw) < n {
+		l := min(r.Range(base, base+100), len(old)-1)
+		at := r.Intn(len(old) - l)
+		nw = append(nw, old[at:at+l]...)
+		if r.Chance(1, 6) {
+			nw = append(nw, r.Bytes(r.Range(1, 30))...)
+		}
+	}
+	return nw[:n]
+}
+
+func c15GenBsdiffPair(r *lib.Rng, class string, thorough bool, partitions int) (old, nw []byte) {
 	blk := 128 * 1024
 	switch class {
-	case "dense": // hundreds of matches per scan block: the per-worker channel (256) fills up
+	case "dense": // one byte in 150..400 flipped: dense edits, but bsdiff absorbs them into a handful of long
+		// approximate matches (2-3 per scan block, not hundreds: the per-worker channel never fills up —
+		// "shuffled" is the class that fills it)
 		n := r.Range(1, 3)*blk + r.Range(0, 5000)
 		old = r.Bytes(n)
 		nw = append([]byte(nil), old...)
 		for p := r.Range(20, 200); p < len(nw); p += r.Range(150, 400) {
 			nw[p] ^= byte(1 + r.Intn(255))
+		}
+	case "shuffled": // new = short pieces of old in random order: every piece is a match of its own, several hundred per scan block
+		old = r.Bytes(r.Range(2, 4)*blk + r.Range(0, 5000))
+		n := []int{blk - r.Range(0, 3000), blk, r.Range(1, 3)*blk + r.Range(0, 5000)}[r.Intn(3)]
+		// piece lengths base..base+100; three cases in four: short enough for more than 300 pieces
+		// in every scan block of the geometry bsdiff is going to use (the per-worker channel holds 256)
+		bases := []int{40, 120, 250, 400}
+		base := bases[r.Intn(4)]
+		if bs, _, _ := c15Geometry(n, partitions, len(old)); r.Chance(3, 4) {
+			for base > 40 && bs/(base+50) < 300 {
+				base = bases[r.Intn(4)]
+			}
+		}
+		nw = c15Shuffle(r, old, n, base)
+	case "twins": // the same content at several places of old, in different suffix-sort partitions: for a
+		// position of new the longest match is equally long in two or more partitions (a tie)
+		p := max(partitions, 2)
+		seg := r.Range(30000, 70000) // old = p segments of this length: partition i of the suffix sort is segment i
+		pool := make([][]byte, r.Range(1, 3))
+		for j := range pool {
+			pool[j] = r.Bytes(r.Range(seg/3, seg))
+		}
+		aligned := r.Chance(2, 3) // whole copies inside the partitions; else copies laid end to end across the boundaries
+		for i := 0; i < p; i++ {
+			j := r.Intn(len(pool))
+			if i < 2 { // the first two partitions hold the same block, which new takes up
+				j = 0
+			}
+			old = append(old, pool[j]...)
+			if aligned {
+				old = append(old, r.Bytes((i+1)*seg-len(old))...)
+			} else if r.Chance(1, 3) {
+				old = append(old, r.Bytes(r.Range(1, 3000))...)
+			}
+		}
+		for k := r.Range(2, 5); k > 0; k-- {
+			b := append([]byte(nil), pool[(k+1)%len(pool)]...)
+			for e := r.Range(0, 6); e > 0; e-- {
+				b[r.Intn(len(b))] ^= byte(1 + r.Intn(255))
+			}
+			if r.Chance(1, 3) {
+				at := r.Intn(len(b))
+				b = append(append(append([]byte(nil), b[:at]...), r.Bytes(r.Range(1, 200))...), b[at:]...)
+			}
+			nw = append(nw, b...)
 		}
 	case "manyblocks": // more scan blocks than workers: workers are handed a second block
 		n := 13*blk + r.Range(1, 3*blk)
@@ -867,19 +1003,26 @@ func c15Bsdiff(c *Ctx) error {
 	runs := c.N(3, 8)
 	for i := 0; i < n; i++ {
 		cr := r.Fork()
-		class := []string{"dense", "edits", "manyblocks", "edits", "dense", "edits"}[i%6]
-		old, nw := c15GenBsdiffPair(cr, class, c.Thorough())
+		class := []string{"shuffled", "edits", "manyblocks", "twins", "shuffled", "dense", "twins", "edits"}[i%8]
 		partitions := []int{1, 2, 4, 0, 3}[(i+int(c.Seed))%5]
 		if class == "manyblocks" {
 			partitions = 1
 		}
+		if class == "twins" { // ties between partitions need several of them
+			partitions = 2 + (i+int(c.Seed))%3
+		}
+		old, nw := c15GenBsdiffPair(cr, class, c.Thorough(), partitions)
 		conc := []int{0, 2}[i%2]
 		oracle := ""
 		var refStream []byte
 		var ms []c15Match
 		var blocks int
 		var procsUsed []int
-		for k := 0; k < runs && oracle == ""; k++ {
+		caseRuns := runs
+		if class == "twins" { // small inputs; which partition finishes sorting first varies from run to run
+			caseRuns = 2 * runs
+		}
+		for k := 0; k < caseRuns && oracle == ""; k++ {
 			procs := c15Procs[(k+i)%len(c15Procs)]
 			procsUsed = append(procsUsed, procs)
 			var stream, replay []byte
@@ -891,18 +1034,21 @@ func c15Bsdiff(c *Ctx) error {
 				cls, msg = lib.WithDeadline(120*time.Second, func() error {
 					var err error
 					var rng *lib.Rng
-					if k > 0 { // run 0 hands over plain readers
+					var lag *c15Lag
+					if k > 0 { // run 0 hands over plain readers and callbacks that return at once
 						rng = cr.Fork()
+						lag = newC15Lag(cr)
 					}
-					stream, m, replay, b, prog, err = c15RunBsdiff(old, nw, partitions, conc, rng, k%3)
+					stream, m, replay, b, prog, err = c15RunBsdiff(old, nw, partitions, conc, rng, k%3, lag)
 					return err
 				})
 			})
 			switch {
 			case cls != "ok":
 				oracle = fmt.Sprintf("run %d (GOMAXPROCS %d) bsdiff %s: %s", k, procs, cls, msg)
+				blocks = max(blocks, b)
 			case !bytes.Equal(replay, nw):
-				oracle = fmt.Sprintf("run %d: replaying the control messages on old gives %d bytes that differ from new (%d bytes) at %d", k, len(replay), len(nw), firstDiffAt(replay, nw))
+				oracle = fmt.Sprintf("run %d (GOMAXPROCS %d): replaying the control messages on old gives %d bytes that differ from new (%d bytes) at %d", k, procs, len(replay), len(nw), firstDiffAt(replay, nw))
 			case k == 0:
 				refStream, ms, blocks = stream, m, b
 				for j, f := range prog { // the collector reports block j of n before it drains it
@@ -928,6 +1074,7 @@ func c15Bsdiff(c *Ctx) error {
 		// attribute every forwarded match to its scan block; runs of consecutive indices
 		group := ""
 		coq := ""
+		maxPerBlock := 0
 		if oracle == "" {
 			counts := make([]int, nb)
 			var runsS []string
@@ -955,13 +1102,18 @@ func c15Bsdiff(c *Ctx) error {
 			cs := make([]string, nb)
 			for j, x := range counts {
 				cs[j] = strconv.Itoa(x)
+				maxPerBlock = max(maxPerBlock, x)
 			}
 			group = "collector"
 			coq = fmt.Sprintf("($ID%%N, %d%%nat, 256%%nat, ([%s]%%nat), %d%%N, ([%s]%%nat))", nwk, strings.Join(cs, ";"), cr.U64()%(1<<31), strings.Join(runsS, ";"))
 		}
-		c.Out.Emit(&lib.Case{Group: group, Class: fmt.Sprintf("bsdiff/%s/p%d", class, partitions), Nontrivial: nb >= 2 && len(ms) >= 2,
+		cl := fmt.Sprintf("bsdiff/%s/p%d", class, partitions)
+		if maxPerBlock > 256 { // a scan block with more matches than the worker's channel holds
+			cl += "/over256"
+		}
+		c.Out.Emit(&lib.Case{Group: group, Class: cl, Nontrivial: nb >= 2 && len(ms) >= 2,
 			Input:  map[string]interface{}{"oldLen": len(old), "newLen": len(nw), "oldSha": lib.Digest(old), "newSha": lib.Digest(nw), "class": class, "partitions": partitions, "suffixSortConcurrency": conc},
-			Obs:    map[string]interface{}{"runs": len(procsUsed), "procs": procsUsed, "blocks": blocks, "blockSize": bs, "workers": nwk, "matches": len(ms), "streamLen": len(refStream)},
+			Obs:    map[string]interface{}{"runs": len(procsUsed), "procs": procsUsed, "blocks": blocks, "blockSize": bs, "workers": nwk, "matches": len(ms), "maxMatchesPerBlock": maxPerBlock, "streamLen": len(refStream)},
 			Oracle: oracle, Coq: coq})
 	}
 	return nil
@@ -971,7 +1123,7 @@ func c15Bsdiff(c *Ctx) error {
 
 type c15RaceParams struct {
 	Seed uint64
-	Kind string // diff | optimize | bsdiff
+	Kind string // diff | optimize | bsdiff | sequence
 	I    int
 }
 
@@ -995,6 +1147,11 @@ func runC15Race(c *Ctx) error {
 		}
 		defer os.RemoveAll(pr.base)
 		return c15DiffDeterminism(c, r, pr, lib.Compressions[p.I%len(lib.Compressions)], 2, "")
+	case "sequence": // a diff after an abandoned one, then diffs side by side
+		if err := c15SeqCase(c, r.Fork(), []int{0, 2, 0, 4}[p.I%4], lib.Compressions[p.I%len(lib.Compressions)], true); err != nil {
+			return err
+		}
+		return c15ConcurrentCase(c, r.Fork(), 2, p.I, true)
 	case "optimize":
 		old, nw, rel := c15GenOptPair(r, false, p.I%2 == 1)
 		pr, err := c15WritePair(c, "c15ro", old, nw, rel)
@@ -1008,26 +1165,46 @@ func runC15Race(c *Ctx) error {
 		}
 		return c15OptimizeDeterminism(c, r, pr, o, 2, 8, "")
 	case "bsdiff":
-		old, nw := c15GenBsdiffPair(r, []string{"dense", "edits"}[p.I%2], false)
-		if len(old) > 200000 {
-			old, nw = old[:200000], nw[:min(len(nw), 200000)]
-		}
+		// two inputs: one whose scan blocks yield more matches than a worker's channel holds,
+		// one with dense or few edits
 		oracle := ""
-		var s0 []byte
-		for k := 0; k < 2; k++ {
-			var s, replay []byte
-			var e error
-			withProcs(8, func() { s, _, replay, _, _, e = c15RunBsdiff(old, nw, 2+p.I%3, 2, r.Fork(), 1+k) })
-			if e != nil {
-				oracle = "bsdiff error: " + e.Error()
-			} else if !bytes.Equal(replay, nw) {
-				oracle = "replaying the control messages on old does not give new"
-			} else if k == 1 && !bytes.Equal(s, s0) {
-				oracle = "control message stream differs between two runs"
+		streamLen := 0
+		var inputs []map[string]interface{}
+		for j := 0; j < 2 && oracle == ""; j++ {
+			var old, nw []byte
+			class := "shuffled"
+			partitions := 1 + (p.I+j)%2
+			if j == 0 {
+				old = r.Bytes(r.Range(60000, 100000))
+				nw = c15Shuffle(r, old, 128*1024+r.Range(0, 8000), []int{40, 120}[r.Intn(2)])
+			} else {
+				class = []string{"dense", "edits"}[p.I%2]
+				partitions = 2 + p.I%3
+				old, nw = c15GenBsdiffPair(r, class, false, partitions)
+				if len(old) > 140000 {
+					old, nw = old[:140000], nw[:min(len(nw), 140000)]
+				}
 			}
-			s0 = s
+			var s0 []byte
+			matches := 0
+			for k := 0; k < 2-j && oracle == ""; k++ { // the second input once: the parent compares runs
+				var s, replay []byte
+				var ms []c15Match
+				var e error
+				withProcs(8, func() { s, ms, replay, _, _, e = c15RunBsdiff(old, nw, partitions, 2, r.Fork(), 1+k, newC15Lag(r)) })
+				if e != nil {
+					oracle = class + ": bsdiff error: " + e.Error()
+				} else if !bytes.Equal(replay, nw) {
+					oracle = class + ": replaying the control messages on old does not give new"
+				} else if k == 1 && !bytes.Equal(s, s0) {
+					oracle = class + ": control message stream differs between two runs"
+				}
+				s0, matches = s, len(ms)
+			}
+			streamLen += len(s0)
+			inputs = append(inputs, map[string]interface{}{"class": class, "oldLen": len(old), "newLen": len(nw), "oldSha": lib.Digest(old), "newSha": lib.Digest(nw), "partitions": partitions, "matches": matches})
 		}
-		c.Out.Emit(&lib.Case{Class: "bsdiff", Obs: map[string]interface{}{"streamLen": len(s0)}, Oracle: oracle})
+		c.Out.Emit(&lib.Case{Class: "bsdiff", Input: inputs, Obs: map[string]interface{}{"streamLen": streamLen}, Oracle: oracle})
 		return nil
 	}
 	return fmt.Errorf("unknown kind %q", p.Kind)
@@ -1039,22 +1216,50 @@ func c15RaceCases(c *Ctx) error {
 		return err
 	}
 	r := c.Rng.Fork()
-	n := c.N(3, 18)
+	n := c.N(4, 20)
 	for i := 0; i < n; i++ {
-		p := c15RaceParams{Seed: r.U64(), Kind: []string{"diff", "optimize", "bsdiff"}[i%3], I: i/3 + int(c.Seed)}
+		p := c15RaceParams{Seed: r.U64(), Kind: []string{"diff", "optimize", "bsdiff", "sequence"}[i%4], I: i/4 + int(c.Seed)}
 		result := filepath.Join(c.Tmp, "c15race.jsonl")
+		tc := time.Now()
 		cr, err := runChild(bin, "C15race", p, result, c.Tmp, 600*time.Second, raceEnv)
 		if err != nil {
 			return err
 		}
+		if os.Getenv("VERIF_TIMING") != "" {
+			fmt.Fprintf(os.Stderr, "C15 race child %-9s %6.1fs\n", p.Kind, time.Since(tc).Seconds())
+		}
 		oracle := ""
+		// the child writes one line per case it ran (the sequence kind runs two)
 		var child struct {
 			Oracle string
 			Obs    map[string]interface{}
 			Input  interface{}
 		}
 		if b, err := os.ReadFile(result); err == nil {
-			json.Unmarshal(bytes.TrimSpace(b), &child)
+			var inputs []interface{}
+			for _, line := range bytes.Split(bytes.TrimSpace(b), []byte("\n")) {
+				var one struct {
+					Class, Oracle string
+					Obs           map[string]interface{}
+					Input         interface{}
+				}
+				if json.Unmarshal(bytes.TrimSpace(line), &one) != nil {
+					continue
+				}
+				inputs = append(inputs, one.Input)
+				if child.Obs == nil {
+					child.Obs = map[string]interface{}{}
+				}
+				child.Obs[one.Class] = one.Obs
+				if child.Oracle == "" && one.Oracle != "" {
+					child.Oracle = one.Class + ": " + one.Oracle
+				}
+			}
+			if len(inputs) == 1 {
+				child.Input = inputs[0]
+			} else if len(inputs) > 1 {
+				child.Input = inputs
+			}
 		}
 		os.Remove(result)
 		switch {
